@@ -21,10 +21,11 @@ PLAN = dict(
                     "mistyped-goto-unbound (repaired by 126604b; a recurrence is a violation) | semantic-mismatch; mismatches of programs outside the precondition "
                     "(effects in argument positions) are SKIPped.  Theorems: fresh names for fresh_name and for the whole "
                     "translation (all term forms), structural lemmas, the capture and call-to-main witnesses refuting the unguarded and the "
-                    "Barendregt-guarded statements, and SEMANTIC PRESERVATION for the language without codata "
+                    "Barendregt-guarded statements, and SEMANTIC PRESERVATION for all term forms incl. codata "
                     "(C02_fun2core_correct_fragment2: step-indexed forward simulation CEK vs Core machine; any number of definitions, calls, "
-                    "recursion, shared continuations, data/case, labels/goto; guard: scope check + capture guard, implied by Barendregt); inputs inside "
-                    "the theorem's hypotheses carry the tag proved-fragment2; for codata semantic preservation rests on the correspondence + "
+                    "recursion, shared continuations, data/case, labels/goto, new/destructors/by-name bindings; guard: scope check + kind discipline + "
+                    "capture guard, implied by Barendregt; excluded: calls of main, destructor calls whose scrutinee and arguments both need evaluation); inputs inside "
+                    "the theorem's hypotheses carry the tag proved-fragment2 (others out-frag/out-kind/out-scope/out-nocap); outside them preservation rests on the correspondence + "
                     "this executable check (see level_note)",
         assumptions=["the reference semantics Sem/FunSem.v and Sem/CoreSem.v are the intended meaning of Fun and Core "
                      "(validated against the repository's 11 expected outputs and native x86-64 runs of the corpus, not proved)",
